@@ -90,18 +90,14 @@ func PipeIO(writer io.Writer, reader io.Reader) (n int64, err error) {
 	pr, pw := io.Pipe()
 	errC := make(chan error, 1)
 	go func() {
-		defer pw.Close()
-		_, err = io.Copy(pw, reader)
-		if err != nil {
-			errC <- err
-		}
-		close(errC)
+		_, e := io.Copy(pw, reader)
+		_ = pw.CloseWithError(e) // the reading side sees EOF, or the error of the source
+		errC <- e
 	}()
-	written, err := io.Copy(writer, pr)
-	select {
-	case err = <-errC:
-		return 0, err
-	default:
+	written, werr := io.Copy(writer, pr)
+	_ = pr.CloseWithError(werr) // a failed writer releases the copying goroutine
+	if rerr := <-errC; rerr != nil && werr == nil {
+		return 0, rerr
 	}
-	return written, err
+	return written, werr
 }
